@@ -282,6 +282,18 @@ func (c *fctx) call(x *ast.CallExpr) string {
 			if obj.Name() == "delete" && len(x.Args) > 0 {
 				return seq(argEff, "(GEv (EWrite LAux))")
 			}
+			// append stores into the spare capacity of its first argument's
+			// backing array: unless that slice was made in this function (or
+			// is the stack's own slice, whose assignment is a header write)
+			// this is a store into memory shared with whoever supplied it
+			if obj.Name() == "append" && len(x.Args) > 1 {
+				if _, isStar := x.Args[0].(*ast.StarExpr); !isStar {
+					id := c.rootIdent(x.Args[0])
+					if id == nil || !c.fresh[c.g.info.Uses[id]] {
+						return seq(argEff, "(GEv (EWrite LOther))")
+					}
+				}
+			}
 			return argEff
 		case *types.Func:
 			if obj.Pkg() == c.g.pkg {
@@ -578,6 +590,14 @@ func (c *fctx) markFresh(lhs ast.Expr, rhs ast.Expr) {
 		if f, ok := r.Fun.(*ast.Ident); ok {
 			if b, ok := c.g.info.Uses[f].(*types.Builtin); ok && (b.Name() == "make" || b.Name() == "new" || b.Name() == "append") {
 				isFresh = b.Name() != "append"
+				if !isFresh && len(r.Args) > 0 {
+					// appending to a slice made here gives a slice made here
+					if id := c.rootIdent(r.Args[0]); id != nil {
+						if _, isStar := r.Args[0].(*ast.StarExpr); !isStar && c.fresh[c.g.info.Uses[id]] {
+							isFresh = true
+						}
+					}
+				}
 			}
 		}
 	}
@@ -810,7 +830,7 @@ func genIR(repo string, p *pkgInfo) string {
 			for _, fl := range fd.Type.Results.List {
 				for _, nm := range fl.Names {
 					switch info.Defs[nm].Type().Underlying().(type) {
-					case *types.Pointer, *types.Interface, *types.Map, *types.Slice:
+					case *types.Pointer, *types.Interface, *types.Map:
 					default:
 						c.fresh[info.Defs[nm]] = true
 					}
